@@ -138,11 +138,12 @@ theorem pure_runs_no_user_code (m : Machine) (u1 u2 : UEnv) (hg : u1.g = u2.g) (
 /-- **… (2), at the level of the hooks:** the only answers the probe's action hook ever gives are
     "recorded, context exactly as it was" and "not a user action" (then the name is an unregistered
     built-in and the engine's built-in path runs); it never fails, never is a coroutine, never returns
-    another context. Its sends only enqueue (`enqueue`: nothing is delivered anywhere else). -/
+    another context. Its sends only enqueue (`enqueueQ true`: marked, as every send the sync engine makes while
+    `_is_processing` is set; nothing is delivered anywhere else). -/
 theorem pure_act_outcomes_ignored (u : UEnv) (m : Machine) (n : String) (c : Ctx) (e : String) :
     ((pureHooks u m).act n c e = .ok c ∨
       ((pureHooks u m).act n c e = .missing ∧ u.a n c e = .missing ∧ (canonicalBuiltin n).isSome = true)) ∧
-    (pureHooks u m).snd = enqueue ∧ (pureHooks u m).sndRaise = enqueue :=
+    (pureHooks u m).snd = enqueueQ true ∧ (pureHooks u m).sndRaise = enqueueQ true :=
   ⟨pureAct_cases u n c e, rfl, rfl⟩
 
 /-- **the pure functions agree with the sync engine** (the formal counterpart of the monitor). For a user
@@ -331,8 +332,9 @@ example : DISorted pM [(["A"], [["A", "a2"]])] := by
 Helper lemmas: `Xsm/Proofs/Agree.lean`. The two engines are ONE set of definitions; they differ in
 
 * **queue bookkeeping** — the async hooks count every self-sent event in `raiseDepth` and flag the queued
-  entry `self := true` (for the chain breaker); the sync drain has a per-drain budget instead. `eraseQ`
-  forgets exactly the counter and the flags. `errors` (the async engine's count of logged failures; the sync
+  entry `self := true` (for the chain breaker); the sync hooks flag it too (`_raised_in_drain`: also during
+  `start()`, where the async engine flags nothing) and the sync drain counts the flagged entries it dequeues
+  in a local counter instead. `eraseQ` forgets exactly the counter and the flags. `errors` (the async engine's count of logged failures; the sync
   engine raises to the caller instead) is NOT erased: under the hypotheses below it is equal on both sides.
 * **the queue of an interpreter that is no longer running** — `enqueue` refuses, `send` returns at once, so
   it is never read again; the sync drain clears it, the async loop just exits and leaves it. `dropDead`
@@ -342,16 +344,19 @@ Helper lemmas: `Xsm/Proofs/Agree.lean`. The two engines are ONE set of definitio
   (`StartTag`), and user code that looks at the event name could tell them apart (`StartBlind` excludes it).
 * **coroutine actions** — refused by the sync engine (`NotSupportedError`; inside a `choose` branch the
   refusal is even contained and only logged), awaited by the async one: `NoCoroutine` excludes them.
-* **what happens at the bound and on failure** — the sync drain discards what is queued once it has
-  dequeued `maxIterations` events MORE than were queued when it started (`drainBudget`; the events queued at
-  the start — the one just sent, what `start()` queued — do not count: repair of F10), the async breaker
-  purges the chain once MORE than `maxIterations` self-sent events were counted; a failing macrostep aborts the sync drain (the rest stays queued, the error
+* **what happens at the bound and on failure** — the sync drain purges the MARKED events (those enqueued while
+  a drain was in flight, or during `start()`) when a marked event is dequeued as the `maxIterations + 1`-st of
+  its drain since the last cut, and goes on with the external ones (second repair of F10), the async breaker
+  purges the chain once MORE than `maxIterations` self-sent events were counted since the counter was last
+  reset — the same policy, but the two counters are not the same number (the async one counts at ENQUEUE time
+  and is reset when a chain ends, the sync one counts at DEQUEUE time and is reset by a cut only; the async
+  `start()` marks nothing); a failing macrostep aborts the sync drain (the rest stays queued, the error
   is raised) while the async loop logs it and goes on. So agreement is claimed for runs in which neither
   bound is reached (`sendTrips … = 0`, `sendCut … = false`; `CutFree`) and the sync engine raises nothing
   (`(syncSend …).err = none`; `NoFail`) — by `Sim.err` the async engine then logs nothing either.
 * **the fuel of the async MODEL** — `asyncDrain` recurses on a fuel constant the code does not have (status
-  "HANG" when it runs out, C13 §3). A sync drain may now legitimately run longer than that constant (its
-  budget grows with the number of events queued at its start), so wherever the queue at the start of the
+  "HANG" when it runs out, C13 §3). A sync drain may legitimately run longer than that constant (the number
+  of events it processes grows with the number of external events queued at its start), so wherever the queue at the start of the
   drain is not known to be empty the statements assume the model's fuel does not run out
   (`… .status ≠ "HANG"`: `send_agree_from`, `start_agree`, last clause of `CutFree`); from an idle state
   (`send_agree`, every command of a whole run) and under `ShortChains` this is proved, not assumed.
@@ -382,18 +387,19 @@ theorem agree_spelled (T : List String → List String → Prop) (a b : St) :
 theorem agree_eq_eraseQ (a b : St) : Agrees Eq a b ↔ eraseQ (dropDead a) = eraseQ (dropDead b) :=
   agree_eq_iff a b
 
-/-- **(1a) the hooks differ only in their sends, and those commute with the erasure** -/
+/-- **(1a) the hooks differ only in their sends, and those commute with the erasure** (up to the erasure: the
+    sync hooks mark what they enqueue, too) -/
 theorem sends_commute_with_eraseQ (u : UEnv) (m : Machine) (e : Ev) (s : St) :
-    eraseQ ((hooksAsync u m).snd e s) = (hooksFlagged u m).snd e (eraseQ s) ∧
-    eraseQ ((hooksAsync u m).sndRaise e s) = (hooksFlagged u m).sndRaise e (eraseQ s) ∧
-    eraseQ ((hooksAsyncStart u m).snd e s) = (hooksFlagged u m).snd e (eraseQ s) ∧
-    eraseQ ((hooksAsyncStart u m).sndRaise e s) = (hooksFlagged u m).sndRaise e (eraseQ s) := by
-  have h1 : eraseQ (enqueueQ true e { s with raiseDepth := s.raiseDepth + 1 }) = enqueue e (eraseQ s) := by
-    unfold enqueue enqueueQ eraseQ
+    eraseQ ((hooksAsync u m).snd e s) = eraseQ ((hooksFlagged u m).snd e (eraseQ s)) ∧
+    eraseQ ((hooksAsync u m).sndRaise e s) = eraseQ ((hooksFlagged u m).sndRaise e (eraseQ s)) ∧
+    eraseQ ((hooksAsyncStart u m).snd e s) = eraseQ ((hooksFlagged u m).snd e (eraseQ s)) ∧
+    eraseQ ((hooksAsyncStart u m).sndRaise e s) = eraseQ ((hooksFlagged u m).sndRaise e (eraseQ s)) := by
+  have h1 : eraseQ (enqueueQ true e { s with raiseDepth := s.raiseDepth + 1 }) = eraseQ (enqueueQ true e (eraseQ s)) := by
+    unfold enqueueQ eraseQ
     by_cases hr : s.status = "running"
     · simp [hr]
     · simp [hr]
-  have h2 : eraseQ (enqueue e s) = enqueue e (eraseQ s) := by
+  have h2 : eraseQ (enqueue e s) = eraseQ (enqueueQ true e (eraseQ s)) := by
     unfold enqueue enqueueQ eraseQ
     by_cases hr : s.status = "running"
     · simp [hr]
@@ -426,7 +432,7 @@ theorem hooks_simulation (u : UEnv) (m : Machine) (hu : NoCoroutine u) (hA : Hoo
 
 /-- **(2, two states) one `send`.** From `Agrees`-related states (an async one and a sync one — e.g. the
     states two whole runs are in), if the async breaker does not trip while the event is digested, the sync
-    drain does not exhaust its budget with events still queued, the sync `send` raises nothing, and the async
+    drain is not cut (no marked event trips its bound), the sync `send` raises nothing, and the async
     MODEL's fuel does not run out (`hh`; the queues of `a` / `b` are arbitrary here, and the sync drain
     processes all of it), the states after the `send` are `Agrees`-related again. -/
 theorem send_agree_from (m : Machine) (u : UEnv) (hu : NoCoroutine u) (T : List String → List String → Prop)
@@ -437,7 +443,7 @@ theorem send_agree_from (m : Machine) (u : UEnv) (hu : NoCoroutine u) (T : List 
   send_sim hT hu e hs hh ht hc he
 
 /-- **(2) `send_agree`.** For an idle running state `s` (nothing queued, counter 0): if the breaker does not
-    trip during `asyncSend m u e s`, the drain of `syncSend m u e s` does not exhaust its budget, and the sync
+    trip during `asyncSend m u e s`, the drain of `syncSend m u e s` is not cut, and the sync
     `send` raises nothing (no macrostep of the drain fails — a failure would abort the sync drain with the rest
     still queued while the async loop logs it and goes on), both engines end with the same configuration,
     history, context, status, error flag and trace (same records, same order); the sync queue is empty; and if
@@ -461,8 +467,8 @@ theorem send_agree (m : Machine) (u : UEnv) (hu : NoCoroutine u) (e : Ev) (s : S
 /-- **(2, usable form) short chains reach neither bound.** For an idle state: if the machine sends itself
     fewer than `maxIterations` events while `e` is digested (`asyncSelfSends`: every `raise` and every
     `done.state.*` delivered while the async loop is processing, over the whole chain), the breaker does not
-    trip and the sync budget (`maxIterations` + 1: `e` itself, queued when the drain starts, does not count)
-    is not exhausted. -/
+    trip and the sync drain is not cut (`e` itself is external and does not count; fewer than `maxIterations`
+    marked events come up). -/
 theorem send_bounds_of_short_chain (m : Machine) (u : UEnv) (hu : NoCoroutine u) (e : Ev) (s : St)
     (hq : s.queue = []) (hd : s.raiseDepth = 0)
     (hshort : asyncSelfSends m u (asyncFuel m) (pushExt e s) < m.maxIterations) :
@@ -471,8 +477,8 @@ theorem send_bounds_of_short_chain (m : Machine) (u : UEnv) (hu : NoCoroutine u)
     (fun _ => ⟨hq, hd⟩) (fun _ => hshort)
 
 /-- **(3) `start_agree`.** `start()` from any state `s`: if the breaker does not trip while the async loop
-    digests what the initial entry and settling queued, the sync drain does not exhaust its budget on it
-    (`drainBudget`: `maxIterations` + the number of events so queued), the async MODEL's fuel does not run out
+    digests what the initial entry and settling queued, the sync drain is not cut on it (these events are
+    MARKED on the sync engine and count towards its bound), the async MODEL's fuel does not run out
     (`hh`) and the sync `start()` raises nothing, both engines end with the same configuration, history, context, status,
     error flag, (live) queue — and traces that agree record by record up to the start tag (`StartTag`: equal,
     or the same action tagged `___xstate_statemachine_init___` by the async engine and `entry.<state id>` by
@@ -480,7 +486,7 @@ theorem send_bounds_of_short_chain (m : Machine) (u : UEnv) (hu : NoCoroutine u)
 theorem start_agree (m : Machine) (u : UEnv) (hu : NoCoroutine u) (hb : StartBlind m u) (s : St)
     (hh : (asyncStart m u s).status ≠ "HANG")
     (ht : asyncTrips m u (asyncFuel m) (asyncStartSettled m u s) = 0)
-    (hc : drainCut m u (drainBudget m (syncStartSettled m u s)) (syncStartSettled m u s) = false)
+    (hc : drainCut m u (drainFuel m (syncStartSettled m u s)) 0 (syncStartSettled m u s) = false)
     (he : (syncStart m u s).err = none) :
     Agrees (TrRel (StartTag m)) (asyncStart m u s) (syncStart m u s) ∧
     (syncStart m u s).queue = [] ∧
@@ -497,7 +503,7 @@ theorem start_bounds_of_short_chain (m : Machine) (u : UEnv) (hu : NoCoroutine u
     (hshort : (asyncStartSettled m u s).queue.length +
       asyncSelfSends m u (asyncFuel m) (asyncStartSettled m u s) ≤ m.maxIterations) :
     asyncTrips m u (asyncFuel m) (asyncStartSettled m u s) = 0 ∧
-    drainCut m u (drainBudget m (syncStartSettled m u s)) (syncStartSettled m u s) = false ∧
+    drainCut m u (drainFuel m (syncStartSettled m u s)) 0 (syncStartSettled m u s) = false ∧
     ((syncStart m u s).err = none → (asyncStart m u s).status ≠ "HANG") :=
   ⟨(start_cutFree_of_short hu hb (Sim.refl (trRel_refl_startTag m) s) hd hshort).1,
    (start_cutFree_of_short hu hb (Sim.refl (trRel_refl_startTag m) s) hd hshort).2,
@@ -619,8 +625,8 @@ example : (asyncStart wM XSM.Term.Ex.u0 {}).trace =
 
 /-- **the side condition is necessary.** `burstM` (C13; bound 3): `E` raises `R` four times in one step. No
     command fails, but `CutFree` does not hold — the async breaker trips on the first `R` and purges all four,
-    the sync drain (budget 3 + 1: `E` itself does not count) processes three of them before its budget is
-    exhausted — and the runs differ. -/
+    the sync drain (`E` itself does not count) processes three of them and is cut by the fourth — and the runs
+    differ. -/
 example : NoFail XSM.Term.Ex.burstM XSM.Term.Ex.u0 [.user "E"] ∧ ¬ CutFree XSM.Term.Ex.burstM XSM.Term.Ex.u0 [.user "E"] ∧
     sendTrips XSM.Term.Ex.burstM XSM.Term.Ex.u0 (.user "E") (asyncStart XSM.Term.Ex.burstM XSM.Term.Ex.u0 {}) = 1 ∧
     sendCut XSM.Term.Ex.burstM XSM.Term.Ex.u0 (.user "E") (syncStart XSM.Term.Ex.burstM XSM.Term.Ex.u0 {}) = true := by
